@@ -323,10 +323,42 @@ pub fn check_names(s: &str, obs: &mut Obs) -> PropResult {
 	if tf != ObjClassName::is_valid(js) {
 		return Err(format!("ObjClassName::try_from and is_valid disagree on {s:?}"));
 	}
+	// the helpers of a class name: array / object side, exactly one of them
+	if ref_class_name(s) {
+		let cn = ClassName::try_from(JavaString::from(s)).map_err(|e| format!("valid class name {s:?} refused: {e:#}"))?;
+		let is_arr = s.starts_with('[');
+		if cn.is_array() != is_arr {
+			return Err(format!("ClassName({s:?}).is_array() = {}", cn.is_array()));
+		}
+		if cn.as_arr().is_some() != is_arr || cn.as_obj().is_some() == is_arr {
+			return Err(format!("ClassName({s:?}): as_arr() is {:?}, as_obj() is {:?}", cn.as_arr().map(|x| x.as_inner()), cn.as_obj().map(|x| x.as_inner())));
+		}
+		match cn.as_arr_and_obj() {
+			Ok(a) if is_arr && a.as_inner() == js => {}
+			Err(o) if !is_arr && o.as_inner() == js => {}
+			other => return Err(format!("ClassName({s:?}).as_arr_and_obj() = {other:?}")),
+		}
+		if cn.clone().into_arr().is_some() != is_arr || cn.clone().into_obj().is_some() == is_arr {
+			return Err(format!("ClassName({s:?}): into_arr / into_obj disagree with the leading `[`"));
+		}
+		obs.label(if is_arr { "helpers:array" } else { "helpers:object" });
+	}
 	// inner class split / join
 	if ref_obj_class_name(s) {
 		let name = ObjClassName::try_from(JavaString::from(s)).map_err(|e| format!("valid object class name {s:?} refused: {e:#}"))?;
 		let slice: &ObjClassNameSlice = &name;
+		// the simple name is what follows the last `/`; the inner name / parent are the two halves of the split
+		let simple = s.rsplit_once('/').map_or(s, |(_, x)| x);
+		if slice.get_simple_name().as_inner() != JavaStr::from_str(simple) {
+			return Err(format!("get_simple_name({s:?}) = {:?}, expected {simple:?}", slice.get_simple_name().as_inner()));
+		}
+		if slice.as_class_name().as_inner() != js {
+			return Err(format!("as_class_name({s:?}) = {:?}", slice.as_class_name().as_inner()));
+		}
+		let split = slice.split_inner_class_parent_and_name();
+		if slice.get_inner_class_parent() != split.map(|x| x.0) || slice.get_inner_class_name() != split.map(|x| x.1) {
+			return Err(format!("get_inner_class_parent / get_inner_class_name of {s:?} disagree with split_inner_class_parent_and_name"));
+		}
 		if let Some((p, i)) = slice.split_inner_class_parent_and_name() {
 			// reference split: last '$' of the string; parent and inner non-empty, parent not ending in '/', inner without '/'
 			let (rp, ri) = s.rsplit_once('$').ok_or_else(|| format!("split of {s:?} succeeded without a `$`"))?;
